@@ -25,11 +25,16 @@ pub struct SerializableGlobalRule<L: Language> {
 
 fn into_map<L: Language>(
   rules: Vec<SerializableGlobalRule<L>>,
-) -> HashMap<String, (L, SerializableRuleCore)> {
-  rules
-    .into_iter()
-    .map(|r| (r.id, (r.language, r.core)))
-    .collect()
+) -> Result<HashMap<String, (L, SerializableRuleCore)>, ReferentRuleError> {
+  let mut map = HashMap::new();
+  for r in rules {
+    // global rules are looked up by id alone: a second rule with the same id would silently replace the first
+    if map.contains_key(&r.id) {
+      return Err(ReferentRuleError::DuplicateRule(r.id));
+    }
+    map.insert(r.id, (r.language, r.core));
+  }
+  Ok(map)
 }
 
 type OrderResult<T> = Result<T, String>;
@@ -191,7 +196,7 @@ impl<L: Language> DeserializeEnv<L> {
     utils: Vec<SerializableGlobalRule<L>>,
   ) -> Result<GlobalRules<L>, RuleCoreError> {
     let registration = GlobalRules::default();
-    let utils = into_map(utils);
+    let utils = into_map(utils).map_err(RuleSerializeError::MatchesReference)?;
     let order = TopologicalSort::get_order(&utils)
       .map_err(ReferentRuleError::CyclicRule)
       .map_err(RuleSerializeError::from)?;
